@@ -745,10 +745,21 @@ def run_op_case(ctx, case):
             if lhs != rhs:
                 bad('adjoint-identity', '<Ax, y> = {} but <x, A*y> = {} (inner products of '
                     'range and domain)'.format(lhs, rhs))
-            exp_t = None
-            st, raw = call_resize(dict(newshape=n, off=off_used, mode=mode, c=0, dir='adjoint'), y)
-            if st != 'ok' or ilist(raw) != ilist(aty.asarray()):
-                bad('adjoint-call', 'adjoint(y) is not resize_array(..., direction=adjoint)')
+            # value of the adjoint: W_dom^-1 R^T W_ran y with the boundary-cell fractions of
+            # the inner products (all 1 without nodes on the boundary)
+            wr, wd = bdry_weights(ran), bdry_weights(dom)
+            st, raw = call_resize(dict(newshape=n, off=off_used, mode=mode, c=0, dir='adjoint'),
+                                  wr * y)
+            if st != 'ok' or ilist(raw / wd) != ilist(aty.asarray()):
+                bad('adjoint-call', 'adjoint(y) is not resize_array(fractions(range) * y, '
+                    'direction=adjoint) / fractions(domain)')
+            if ndim == 1:
+                fr_ = [core.frac(v) for v in ran.partition.boundary_cell_fractions[0]]
+                fd_ = [core.frac(v) for v in dom.partition.boundary_cell_fractions[0]]
+                lines.append('opadj mode={} m={} n={} off={} fl={} fr={} gl={} gr={} data={}'
+                             .format(mode, m[0], n[0], off_used[0], fs(fr_[0]), fs(fr_[1]),
+                                     fs(fd_[0]), fs(fd_[1]), fl(y.ravel().tolist())))
+                answers.append('ok r=' + fl(aty.asarray().ravel().tolist()))
             if adj.adjoint is not op:
                 bad('adjoint-adjoint', 'adjoint.adjoint is not the operator')
             if adj.domain != ran or adj.range != dom:
@@ -763,6 +774,20 @@ def run_op_case(ctx, case):
     except Exception as e:  # noqa
         bad('exception', 'unexpected {}: {}'.format(type(e).__name__, str(e)[:200]))
     return problems, lines, answers
+
+
+def bdry_weights(space):
+    """Relative weights of the cells in `space.inner`: per axis the boundary-cell fractions at
+    the first/last entry (both on a single entry), 1 inside; product over the axes."""
+    w = np.ones(space.shape)
+    for ax, (fl_, fr_) in enumerate(space.partition.boundary_cell_fractions):
+        v = np.ones(space.shape[ax])
+        v[0] *= fl_
+        v[-1] *= fr_
+        shp = [1] * space.ndim
+        shp[ax] = -1
+        w = w * v.reshape(shp)
+    return w
 
 
 def op_key(case, tag):
@@ -800,10 +825,11 @@ def operator_stream(ctx, deep=False, model=True):
     if model and all_lines:
         outs = core.run_driver('C16', all_lines)
         for line, impl, ans, case in zip(all_lines, all_answers, outs, owners):
-            ctx.hit('discr-model')
+            kind = line.split(' ', 1)[0]
+            ctx.hit(kind + '-model')
             if impl != ans:
-                ctx.disagree({'kind': 'discr', 'line': line, 'case': case}, impl, ans,
-                             stream='_resize_discr')
+                ctx.disagree({'kind': kind, 'line': line, 'case': case}, impl, ans,
+                             stream='_resize_discr' if kind == 'discr' else 'operator adjoint')
 
 
 # ---------------------------------------------------------------------------
@@ -826,7 +852,7 @@ def run(ctx):
     # coverage of the model's branches by this run (a silent loss of coverage must be visible)
     expected = ['{}/{}/{}'.format(m, d, c) for m in MODES for d in DIRS
                 for c in ('grow', 'shrink', 'same')]
-    expected += ['reference/' + m for m in MODES] + ['discr-model']
+    expected += ['reference/' + m for m in MODES] + ['discr-model', 'opadj-model']
     expected_err = ['err:padconst-adjoint', 'err:order0-empty', 'err:order1-short',
                     'err:periodic-too-long', 'err:symmetric-too-long']
     unhit = [b for b in expected if not ctx.branches.get(b)] + \
